@@ -51,6 +51,26 @@ type rlweEnv struct {
 	// deterministic inputs
 	ct1, ct1lo, ct2 *rlwe.Ciphertext
 	innerN          int
+	lateCfg         int // index of the late-galois-keys subject in evalSubjects()
+}
+
+// lateRaceSubject: shallow copies of an evaluator whose shared key set received Galois keys after
+// the evaluator was built, restricted to plain automorphisms (the lazily filled index table).
+func (e *rlweEnv) lateRaceSubject() *subject {
+	s := *e.evalSubjects()[e.lateCfg]
+	s.Work = func(x any) (o outs) {
+		ev := x.(*rlwe.Evaluator)
+		for gi, g := range e.galEls {
+			out := rlwe.NewCiphertext(e.p, 1, e.ct1.Level())
+			if err := ev.Automorphism(e.ct1, g, out); err != nil {
+				o.add(fmt.Sprintf("Automorphism/g%d", gi), "error")
+			} else {
+				o.add(fmt.Sprintf("Automorphism/g%d", gi), digestCt(e.p.RingQ(), out))
+			}
+		}
+		return
+	}
+	return &s
 }
 
 func newRLWEEnv(ps pset) (*rlweEnv, error) {
@@ -378,6 +398,7 @@ func (e *rlweEnv) evalSubjects() (subs []*subject) {
 		subs = append(subs, &subject{Ctor: "rlwe.Evaluator.ShallowCopy", Cfg: tag + "/" + kc.name, Safe: true, Scratch: rlweEvalScratch,
 			Make: func() any { return kc.mk() }, Copy: func(o any) any { return o.(*rlwe.Evaluator).ShallowCopy() }, Work: e.evalWork})
 	}
+	e.lateCfg = len(subs) - 1
 	for _, from := range []string{"full", "nil"} {
 		from := from
 		mk := cfgs[0].mk
